@@ -497,8 +497,9 @@ pub fn expand_glob(tokens: &mut types::Tokens) {
 fn expand_one_env(sh: &Shell, token: &str) -> (String, String) {
     // do not combine these two into one: `\{?..\}?`,
     // otherwize `}` in `{print $NF}` would gone.
-    let re1 = Regex::new(r"^(.*?)\$([A-Za-z0-9_]+|\$|\?)(.*)$").unwrap();
-    let re2 = Regex::new(r"(.*?)\$\{([A-Za-z0-9_]+|\$|\?)\}(.*)$").unwrap();
+    // (?s): the text around a reference may span several lines
+    let re1 = Regex::new(r"(?s)^(.*?)\$([A-Za-z0-9_]+|\$|\?)(.*)$").unwrap();
+    let re2 = Regex::new(r"(?s)^(.*?)\$\{([A-Za-z0-9_]+|\$|\?)\}(.*)$").unwrap();
 
     let cap = match (re1.captures(token), re2.captures(token)) {
         // the reference that starts first
